@@ -231,7 +231,21 @@ func c10SettingFrame(c *Ctx, r *Result) {
 				return
 			}
 			if p, isP := unspill(st.Val).(*ssa.Parameter); isP && p.Parent() == fn && fn.Parent() == nil {
-				r.Instance("R10g", site, pos, "ok", "the setter stores the value its caller passes", true)
+				// … on every path: a setter that stores only in some state of the processor drops
+				// the host's call silently (it has no way to report it)
+				always := true
+				allInstrs(fn, func(x ssa.Instruction) {
+					if _, isRet := x.(*ssa.Return); isRet && x.Block() != fn.Recover && !dominates(in, x) {
+						always = false
+					}
+				})
+				if always {
+					r.Instance("R10g", site, pos, "ok", "the setter stores the value its caller passes, on every path", true)
+					return
+				}
+				r.Instance("R10g", site, pos, "finding", "the setter stores the value only on some paths", true)
+				r.Report(Finding{Rule: "R10g", Site: site, Pos: pos,
+					Msg: key + ": stores the fail-on-first-error setting only on some paths (under a condition): on the others the host's call is dropped without notice — after enabling it on a running processor the rules after a failing one still run"})
 				return
 			}
 			r.Instance("R10g", site, pos, "finding", "the setting is overwritten outside its setter", true)
